@@ -228,6 +228,66 @@ func init() {
 		ConformanceQuick: 64, ConformanceThorough: 1024,
 	})
 	props = append(props, &PropDef{
+		ID: "C09", Title: "ROM header parse/write round-trips and fields sit at their documented offsets", Level: "model_checking",
+		Patterns: []string{"verif/harness/c09"},
+		Jobs: func(tier string) []sym.Job {
+			sizes := []int{0x8000, 0x8001, 0x10000}
+			if tier == "thorough" {
+				sizes = append(sizes, 0x20000, 0x400000)
+			}
+			var js []sym.Job
+			for _, sz := range sizes {
+				js = append(js, job("c09", "RoundTrip", fmt.Sprintf("c09/round-trip/size%#x", sz), int64(sz)))
+			}
+			for _, sz := range []int{0, 1, 0x7FB0, 0x7FFF} {
+				js = append(js, job("c09", "TooSmall", fmt.Sprintf("c09/too-small/size%#x", sz), int64(sz)))
+			}
+			return js
+		},
+		Bounds:           []string{"image sizes 0x8000, 0x8001, 0x10000 (thorough: + 0x20000, 0x400000); every byte of the image symbolic, so all 2^640 header contents and every detected version are covered by one run per size", "the field walker's loops have concrete trip counts (number of struct fields)"},
+		Outside:          []string{"image sizes other than the listed ones (the header offset is a constant; argued)", "headers located elsewhere than $7FB0 (the library only reads LoROM position)"},
+		Assumptions:      []string{"reflect (ValueOf/Elem/NumField/Field/CanInterface/CanAddr/Addr/Interface/Type) and encoding/binary.Read/Write are modelled by their documented contracts from go/types layouts; the walkers in header.go, version logic and bytes.Reader run for real"},
+		Explanation:      "real NewROM/ReadHeader/WriteHeader on a fully symbolic image; field placement compared with the SNES header layout (DESIGN Appendix C) byte by byte",
+		ConformanceQuick: 24, ConformanceThorough: 200,
+	})
+	props = append(props, &PropDef{
+		ID: "C10", Title: "ROM bus readers/writers stay inside the addressed bank and obey io contracts", Level: "model_checking",
+		Patterns: []string{"verif/harness/c10"},
+		Jobs: func(tier string) []sym.Job {
+			var js []sym.Job
+			banks := []int{2}
+			lens := []int{-1, 0, 1, 2, 3}
+			if tier == "thorough" {
+				banks = []int{2, 4}
+				lens = []int{-1, 0, 1, 2, 3, 5}
+			}
+			for _, b := range banks {
+				for _, n := range []int{0, 1, 4} {
+					js = append(js, job("c10", "LowHalf", fmt.Sprintf("c10/low-half/banks%d/len%d", b, n), int64(b), int64(n)))
+				}
+				for _, l1 := range lens[1:] {
+					for _, l2 := range lens {
+						for _, l3 := range lens {
+							if l2 < 0 && l3 >= 0 {
+								continue
+							}
+							if tier != "thorough" && l3 >= 0 && (l1+l2+l3)%2 == 1 {
+								continue
+							}
+							js = append(js, job("c10", "Reads", fmt.Sprintf("c10/reads/banks%d/%d,%d,%d", b, l1, l2, l3), int64(b), int64(l1), int64(l2), int64(l3)))
+							js = append(js, job("c10", "Writes", fmt.Sprintf("c10/writes/banks%d/%d,%d,%d", b, l1, l2, l3), int64(b), int64(l1), int64(l2), int64(l3)))
+						}
+					}
+				}
+			}
+			return js
+		},
+		Bounds:           []string{"image of 2 (thorough also 4) banks with symbolic contents; bus address fully symbolic (bank inside the image); sequences of up to 3 reads or writes of 0-3 (thorough 0-5) bytes with symbolic data", "so every distance to the bank end (at, one before, beyond) is covered by the symbolic address"},
+		Outside:          []string{"banks outside the image (slicing fails loudly)", "longer operation sequences"},
+		Explanation:      "the harness applies the contract (window = file offset .. end of the 32 KiB bank) to its own copy of the image and compares counts, errors, delivered bytes and the whole image",
+		ConformanceQuick: 48, ConformanceThorough: 400,
+	})
+	props = append(props, &PropDef{
 		ID: "C12", Title: "Step accounts cycles faithfully and RunUntil always stops within its budget", Level: "model_checking",
 		Solver: "z3-new", Fallbacks: []string{"cvc5"}, TimeoutQuickMs: 20000,
 		Patterns: []string{"verif/harness/c12"},
